@@ -30,6 +30,7 @@ def resolve_roles(db, rec_q, methods):
     ints = [f['n'] for f in r['fields'] if f['t'] in ('unsigned long', 'std::size_t', 'unsigned int', 'unsigned long long')]
     ptrs = [f for f in r['fields'] if f['t'].endswith('*')]
     assigned = set()
+    where = {}
     for m in methods:
         if m.get('ctor') or 'body' not in m or m['n'].startswith('operator'):
             continue
@@ -38,12 +39,20 @@ def resolve_roles(db, rec_q, methods):
                 t = ir.strip(y['l'])
                 if t['k'] == 'mem' and ir.strip(t['b'])['k'] == 'this':
                     assigned.add(t['n'])
+                    where.setdefault(t['n'], set()).add(m['n'])
             if y.get('k') == 'un' and y['op'] in ('++', '--'):
                 t = ir.strip(y['e'])
                 if t['k'] == 'mem' and ir.strip(t['b'])['k'] == 'this':
                     assigned.add(t['n'])
+                    where.setdefault(t['n'], set()).add(m['n'])
     pos = [n for n in ints if n in assigned]
     lim = [n for n in ints if n not in assigned]
+    if len(pos) > 1:
+        # further mutable counters (caches, statistics): the position is the one the TRANSFER primitives advance; the others are
+        # extra state that the guard rules see as opaque conditions
+        moving = [n for n in pos if where.get(n, set()) & {'Read', 'Write', 'Skip'}]
+        if len(moving) == 1:
+            pos = moving
     if len(pos) != 1 or len(lim) != 1:
         return None
     delegate = None
@@ -91,6 +100,9 @@ def classify_guard(cond, sense, need, roles):
     for side in (cond.lhs, cond.rhs):
         atoms = side.atoms()
         if atoms & fa and atoms - fa:
+            return 'unsafe'
+        # a lone field with a constant added / subtracted (`limit - 1`, `pos + 1`) wraps at the ends of the range as well
+        if len(atoms & fa) == 1 and not (atoms - fa) and (side.t.get((), 0) or 0) != 0:
             return 'unsafe'
         if atoms <= fa and len(atoms) == 2:
             # both fields on one side: must be exactly limit - pos (never a sum)
